@@ -277,6 +277,47 @@ def check_base(ctx: core.Ctx, mod: ast.Module):
                msg="iterating a named vector does not yield its rows in index order (positional *vec expansion relies on it)")
 
 
+def make_reading_guard(ctx: core.Ctx, pmod: ast.Module):
+    """MAKE-READING (which path is taken): the from_data path exactly when data is given and no keyword is; every other call builds from keywords"""
+    from .. import normast, estflow, rtmodel
+    from .c17 import _paths
+    F_ = "py/formak/python.py"
+    cls = core.need(core.find_class(pmod, "ExtendedKalmanFilter"), "python.ExtendedKalmanFilter")
+    fn = core.need(core.find_func(cls, "make_reading"), "ExtendedKalmanFilter.make_reading")
+    kw = fn.args.kwarg.arg if fn.args.kwarg else None
+    datap = next((a.arg for a in fn.args.kwonlyargs), None)
+    where = f"{F_}:ExtendedKalmanFilter.make_reading"
+    if kw is None or datap is None:
+        ctx.error(f"{where}: signature is not (key, *, data=None, **kwargs)")
+        return
+    fn = normast.Normaliser(normast.class_resolver(pmod, cls, module_funcs=False)).function(fn)
+    n_data = 0
+    for path in _paths(fn.body):
+        conds = [(rtmodel.py_expr(e[1]), e[2]) for e in path if e[0] == "cond"]
+        rets = [e[1] for e in path if e[0] == "stmt" and isinstance(e[1], ast.Return) and e[1].value is not None]
+        if not rets:
+            continue
+        v = rets[0].value
+        txt = ast.unparse(v).replace(" ", "")
+        lits = estflow.literals(conds)
+        if txt.endswith(f".from_data({datap})"):
+            n_data += 1
+            want = {(("bin", "==", ("call", "len", (("ref", kw),)), ("num", "0")), True), (("bin", "is", ("ref", datap), ("num", "None")), False)}
+            alt = {(("bin", "is", ("ref", datap), ("num", "None")), False), (("ref", kw), False)}            # `not kwargs`
+            ok = lits is not None and (set(lits) == want or set(lits) == alt)
+            ctx.oblige("MAKE-READING", where, "from_data(data) exactly when data is given and there are no keywords", ok, file=F_,
+                       func="ExtendedKalmanFilter.make_reading", construct="data path guard",
+                       msg="make_reading takes the from_data path under `" + " and ".join(("" if p_ else "not ") + ast.unparse(e[1]) for e in path if e[0] == "cond"
+                                                                                           for p_ in [e[2]]) + f"`; required exactly `len({kw}) == 0 and {datap} is not None`")
+        elif f"(**{kw})" in txt:
+            continue
+        else:
+            ctx.oblige("MAKE-READING", where, f"returns {txt[:60]}", False, file=F_, func="ExtendedKalmanFilter.make_reading", construct="other return",
+                       msg=f"make_reading returns `{ast.unparse(v)[:80]}`: neither Reading.from_data({datap}) nor Reading(**{kw})")
+    ctx.oblige("MAKE-READING", where, f"{n_data} from_data path(s)", n_data == 1, file=F_, func="ExtendedKalmanFilter.make_reading", construct="data path count",
+               msg=f"make_reading has {n_data} paths that build the reading from data; required exactly one")
+
+
 def run(ctx: core.Ctx) -> int:
     for rid, t in (("NV-NAMES", "accepted names = order-preserving str() map of the arglist"), ("NV-GUARD", "unknown names raise before stores"),
                    ("NV-DEFAULT", "zeros / unit variance by default"), ("NV-DATA", "_data stored as is, exclusive with keywords"),
@@ -317,6 +358,7 @@ def run(ctx: core.Ctx) -> int:
     ok = any(isinstance(x, NInst) and x.cls == sc.Reading for x in sc.alts(r2))
     ctx.oblige("MAKE-READING", "py/formak/python.py:ExtendedKalmanFilter.make_reading", f"keywords -> {r2!r}", ok, file="py/formak/python.py",
                func="ExtendedKalmanFilter.make_reading", construct="keyword path", msg=f"make_reading(key, **kw) yields {r2!r}, not that sensor's Reading(**kw)")
+    make_reading_guard(ctx, prog.modules["python"])
     container_rule(ctx)
     genlayout.check_all(ctx, genlayout.GenInfo(ctx, prog))
     return core.finish(ctx, explanation="structural rules on common.named_vector / named_covariance, E2 layout obligations of python.py, "
